@@ -624,6 +624,10 @@ def variant_for(kind, k):
 
 def run(ctx):
     ctx.prove()
+    import translate_qubotools as T
+    ctx.gen_step("qubotools", T.translate, "C01_gen",
+                 "harness/translate_qubotools.py (ast -> Gallina printer: numpy/scipy matrix expressions of qubo_tools.py "
+                 "into the combinators of coq/theories/PyQubo.v; kinds of values, let-sequencing, ownership filter)")
     rng = ctx.rng
     n_mat = 60 if ctx.quick else 2000
     base = gen_inputs(rng, n_mat)
